@@ -231,11 +231,30 @@ def set_lang(lang):
     (ns["loadFr"] if lang == "fr" else ns["loadEn"])()
 
 
+FALLBACK_NON_ASCII = "\u00a0«»ÀÂÄÇÈÉÊËÎÏÑÔÖÙÛÜàâäçèéêëîïñôöùûüŒœ–—’…"
+
+
 def alphabet():
+    """the recorded finite alphabet; when the tie is broken (TranslateError: a lifted constant changed shape) the
+    last recorded one is used, so that the oracle on the real library still runs"""
     if "alpha" not in _P:
-        from harness.translate import elision
-        _P["alpha"] = set(elision.extract()["alphabet"])
+        try:
+            from harness.translate import elision
+            _P["alpha"] = set(elision.extract()["alphabet"])
+        except Exception as e:  # noqa: TranslateError or anything the broken source causes
+            _P["alpha"] = set(FALLBACK_NON_ASCII) | {chr(i) for i in range(32, 127)} | {"\t", "\n"}
+            _P["alpha_error"] = str(e)[:200]
     return _P["alpha"]
+
+
+def safe_driver(ctx, lines):
+    """answers of the model driver, or None for every line when the model is unavailable (driver not built, crash):
+    the direct oracle on the real library must run all the same"""
+    try:
+        return core.run_driver(lines, ctx.driver)
+    except Exception as e:  # noqa
+        ctx.notes["model_unavailable"] = str(e)[:300]
+        return [None] * len(lines)
 
 
 def in_alphabet(toks):
@@ -285,7 +304,7 @@ EN_SECOND = ["apple", "hour", "honest", "honour", "honorable", "heir", "herb", "
              "uncle", "ugly", "ubiquity", "usual", "uvula", "one", "once", "only", "onion", "European", "ewe", "eagle",
              "egg", "idea", "island", "FBI", "USA", "Xbox", "X", "NASA", "a", "an", "not", "am", "is", "are", "will",
              "would", "have", "has", "had", "us", "cat", "year", "8", "", ",", "(", "yacht", "Ünit", "être"]
-PRE = ["", "", "", "", "(", "<b>", "<a href=\"x\">", "« ", "“", "<i><b>", " ", "- ", "<", "<>", "<b", "\"", "[[", "("]
+PRE = ["", "", "", "", "(", "<b>", "<a href=\"x\">", "« ", "“", "<i><b>", "<a href=\"x\"><em>", "(<b>", "<b>(<i>", " ", "- ", "<", "<>", "<b", "\"", "[[", "("]
 POST = ["", "", "", "", ",", "</b>", ")", " !", ", ", "</i>", " x", " le", ".", "]]", "\n", " »", "?", "</b>,"]
 
 
@@ -344,6 +363,7 @@ def structured_elide_lines():
         return {"mk": [ct, lemma], "r": r, "lier": lier, "n": n}
     L = []
     nouns = [("arbre", "N"), ("homme", "N"), ("héros", "N"), ("hibou", "N"), ("chat", "N"), ("Étienne", "Q"), ("<b>arbre</b>", "N"),
+             ("<b><i>arbre</i></b>", "N"), ("<a href=\"x\"><em>homme</em></a>", "N"), ("(<b>arbre</b>", "N"), ("<b>(<i>héros</i></b>", "N"),
              ("(arbre)", "N"), ("Arbre", "N"), ("Homme", "N"), ("HÉROS", "N"), ("et", "C"), ("ou", "C"), ("où", "Pro"),
              ("aujourd'hui", "Adv"), ("est", "V"), ("était", "V"), ("a", "V"), ("Est", "V"), ("huit", "A"), ("onze", "A")]
     for w in ELIDABLE + list(EUPH) + ["à", "de", "ça", "des", "si", "De", "Le", "Ce", "Ma", "BEAU", "Beau", "QUE", "l'", "cet", "bel"]:
@@ -352,16 +372,16 @@ def structured_elide_lines():
         for (x, xct) in nouns:
             for n in ("s", "p"):
                 L.append({"op": "elide", "lang": "fr", "contr": False,
-                          "toks": [T(ct, lem, w, n=n), T(xct, LEMMA_OF.get(x.lower(), x.strip("<b>/()").lower()), x)]})
+                          "toks": [T(ct, lem, w, n=n), T(xct, LEMMA_OF.get(x.lower(), re.sub(r"<[^>]+>|[()]", "", x).lower()), x)]})
         for pre, post in (("<b>", "</b>"), ("(", ""), ("", ","), ("", " x"), ("", "</i> y")):
             L.append({"op": "elide", "lang": "fr", "contr": False, "toks": [T(ct, lem, pre + w + post), T("N", "arbre", "arbre")]})
     for k in CONTR_FR:
         a, b = k.split("+")
-        for third in (None, "arbre", "chat", "homme", "héros", "<i>arbre</i>", "(arbre", ""):
+        for third in (None, "arbre", "chat", "homme", "héros", "<i>arbre</i>", "(arbre", "", "<b><i>arbre</i></b>", "(<b>chat</b>"):
             for ctb in (FR_CT.get(b, "Q"), "DT", "Pro"):
                 toks = [T(FR_CT.get(a, "Q"), a, a), T(ctb, LEMMA_OF.get(b, b), b)]
                 if third is not None:
-                    toks.append(T("N", third.strip("<i>/()") or "x", third))
+                    toks.append(T("N", re.sub(r"<[^>]+>|[()]", "", third) or "x", third))
                 L.append({"op": "elide", "lang": "fr", "contr": False, "toks": toks})
                 L.append({"op": "elide", "lang": "fr", "contr": False, "toks": [T("P", "pour", "pour")] + toks})
                 L.append({"op": "elide", "lang": "fr", "contr": False, "toks": [T("P", "jusque", "jusque")] + toks})
@@ -406,10 +426,11 @@ def structured_elide_lines():
         for w, wl in (("apple", "en"), ("arbre", "fr"), ("hour", "en"), ("cat", "en")):
             L.append({"op": "elide", "lang": "en", "contr": False,
                       "toks": [dict(T("D", "a", "a"), lang=alang), dict(T("N", w, w), lang=wl)]})
-    for w in EN_SECOND + ["Hour", "HOUR", "<b>hour</b>", "(hour)", "uni", "Uni", "eU", "ONE", "Once", "hOnOuRable", "I", "U"]:
+    for w in EN_SECOND + ["Hour", "HOUR", "<b>hour</b>", "(hour)", "<b><i>apple</i></b>", "<a href=\"x\"><em>old</em></a>",
+                          "(<b>apple</b>", "<b><i>user</i></b>", "<i>(<b>hour</b></i>", "uni", "Uni", "eU", "ONE", "Once", "hOnOuRable", "I", "U"]:
         for a in ("a", "A", "<b>a</b>", "(a", "a,", "an", "the"):
             for ct in ("D", "N"):
-                L.append({"op": "elide", "lang": "en", "contr": False, "toks": [T(ct, "a", a), T("N", w.strip("<b>/()").lower() or "x", w)]})
+                L.append({"op": "elide", "lang": "en", "contr": False, "toks": [T(ct, "a", a), T("N", re.sub(r"<[^>]+>|[()]", "", w).lower() or "x", w)]})
     for k in ["are+not", "can+not", "will+not", "I+am", "let+us", "he+is", "what+is", "there+have", "cannot+be", "a+not", "A+apple"]:
         a, b = k.split("+")
         for contr in (False, True):
@@ -577,9 +598,27 @@ def worker_init():
     _W["cap"] = cap.install(cap.Capture())
 
 
+# two or more nested tags, a tag plus punctuation, in front of the second word (groups 1 of sepWordREC with several tags)
+DECORS = ['.tag("i").tag("b")', '.tag("a",{"href":"x"}).tag("em")', '.b("(").tag("b")']
+
+
+def decorated(ns, src, form, idx, every):
+    """[(decor, source, realization alone)] : the plain form, and for every `every`-th form its decorated variants"""
+    out = [("", src, form)]
+    if idx % every == 0:
+        for d in DECORS:
+            try:
+                r = eval(src + d, ns).realize()
+            except Exception:  # noqa
+                continue
+            if r.endswith(">") or form in r:
+                out.append((d, src + d, r))
+    return out
+
+
 def sweep_fr_chunk(args):
     """forms: list of (form, src, lemma, pos) ; firsts: {w: (src, sg)} ; returns (n, nontrivial, failures, sampled calls)"""
-    forms, firsts, sample_every = args
+    forms, firsts, sample_every, decor_every = args
     ns = P()["ns"]
     set_lang("fr")
     lex = P()["getLexicon"]()
@@ -589,7 +628,7 @@ def sweep_fr_chunk(args):
     fails, n, nontriv, calls = [], 0, 0, []
     codes = {w: compile(s[0], "<first>", "eval") for w, s in firsts.items()}
     PPc = ns["PP"]
-    for (form, src, lemma, pos) in forms:
+    for fidx, (form, src, lemma, pos) in enumerate(forms):
         h = lex_h(lex, lemma, pos)
         try:
             xcode = compile(src, "<form>", "eval")
@@ -601,20 +640,23 @@ def sweep_fr_chunk(args):
                 continue        # the map's key is not what this terminal realizes alone (ambiguous entry)
         except Exception:  # noqa
             continue
-        for w, (fsrc, sg) in firsts.items():
+        for (decor, dsrc, dreal) in decorated(ns, src, form, fidx, decor_every):
+          dcode = xcode if not decor else compile(dsrc, "<form>", "eval")
+          for w, (fsrc, sg) in firsts.items():
             if (w + "+" + (view(form) or ("", form, ""))[1]) in CONTR_FR:
                 continue        # the code's own contraction table (not in the property text): covered by (a)
             n += 1
             keep = (n % sample_every == 0)
             c.keep_calls = keep
             try:
-                txt = PPc(eval(codes[w], ns), eval(xcode, ns)).realize()
+                txt = PPc(eval(codes[w], ns), eval(dcode, ns)).realize()
             except Exception as e:  # noqa
                 txt = "EXC:" + type(e).__name__
             exp = expected_pair(w, sg, form, h)
-            if not txt.startswith("EXC:") and not txt.endswith(form):
+            exp = exp[:len(exp) - len(form)] + dreal
+            if not txt.startswith("EXC:") and not txt.endswith(dreal):
                 continue
-            if txt != w + " " + form:
+            if txt != w + " " + dreal:
                 nontriv += 1
             if txt != exp:
                 V = vm(form, h)
@@ -626,7 +668,7 @@ def sweep_fr_chunk(args):
                     sig = "fr:F4:plain" if V else "fr:F5:plain"
                 else:
                     sig = "fr:sweep:control-word-rewritten"
-                fails.append((sig, {"kind": "pair", "lang": "fr", "src": "PP(%s, %s)" % (fsrc, src)},
+                fails.append((sig, {"kind": "pair", "lang": "fr", "src": "PP(%s, %s)" % (fsrc, dsrc)},
                               "expected %r, realized %r (lexicon h flag of %s/%s: %s)" % (exp, txt, lemma, pos, h)))
         if c.calls:
             calls.extend(c.calls)
@@ -635,27 +677,28 @@ def sweep_fr_chunk(args):
 
 
 def sweep_en_chunk(args):
-    forms, sample_every = args
+    forms, sample_every, decor_every = args
     ns = P()["ns"]
     set_lang("en")
     c = _W["cap"]
     c.clear()
     c.keep_texts = False
     fails, n, nontriv, calls = [], 0, 0, []
-    for (form, src, natural) in forms:
+    for fidx, (form, src, natural) in enumerate(forms):
+      for (decor, dsrc, dreal) in decorated(ns, src, form, fidx, decor_every):
         for shape in ((("PP(D(\"a\"), %s)", "%s"),) + ((("NP(D(\"a\"), %s)", "%s"),) if natural else ())):
             n += 1
             c.keep_calls = (n % sample_every == 0)
-            e = shape[0] % src
+            e = shape[0] % dsrc
             try:
                 txt = eval(e, ns).realize()
             except Exception as ex:  # noqa
                 txt = "EXC:" + type(ex).__name__
             w = view(form)
-            want = ("an " if (w and an_rule(w[1])) else "a ") + form
+            want = ("an " if (w and an_rule(w[1])) else "a ") + dreal
             if txt.startswith("an "):
                 nontriv += 1
-            if not txt.startswith("EXC:") and txt not in ("a " + form, "an " + form):
+            if not txt.startswith("EXC:") and txt not in ("a " + dreal, "an " + dreal):
                 continue        # the determiner agreed with a plural-only noun, …: not an a/an question
             if txt != want:
                 if txt.startswith("EXC:"):
@@ -671,7 +714,7 @@ def sweep_en_chunk(args):
 
 def sweep_contr_chunk(args):
     """(à|de|pour) + (le|la|les) + third word: the look-ahead rule, flat and nested"""
-    forms, sample_every = args
+    forms, sample_every, decor_every = args
     ns = P()["ns"]
     set_lang("fr")
     lex = P()["getLexicon"]()
@@ -679,41 +722,46 @@ def sweep_contr_chunk(args):
     c.clear()
     c.keep_texts = False
     fails, n, nontriv, calls = [], 0, 0, []
-    for (form, src, lemma, pos) in forms:
+    for fidx, (form, src, lemma, pos) in enumerate(forms):
         h = lex_h(lex, lemma, pos)
         V = vm(form, h)
-        for p, contr_s, contr_p in (("à", "au", "aux"), ("de", "du", "des"), ("pour", None, None)):
+        for (decor, dsrc, dreal) in decorated(ns, src, form, fidx, decor_every):
+          for p, contr_s, contr_p in (("à", "au", "aux"), ("de", "du", "des"), ("pour", None, None)):
             for num in ("s", "p"):
                 det = 'D("le")' if num == "s" else 'D("le").n("p")'
                 for shape in ('PP(P("%s"), %s, %s)', 'PP(P("%s"), AP(%s, %s))', 'PP(P("pour"), P("%s"), %s, %s)'):
                     n += 1
                     c.keep_calls = (n % sample_every == 0)
-                    e = shape % (p, det, src)
+                    e = shape % (p, det, dsrc)
                     try:
                         txt = eval(e, ns).realize()
                     except Exception as ex:  # noqa
                         txt = "EXC:" + type(ex).__name__
                     if num == "p":
-                        want = (contr_p if contr_p else p + " les") + " " + form
+                        want = (contr_p if contr_p else p + " les") + " " + dreal
                     elif V:
-                        want = p + " l'" + form
+                        want = p + " l'" + dreal
                     else:
-                        want = (contr_s if contr_s else p + " le") + " " + form
-                    if not txt.startswith("EXC:") and not txt.endswith(form):
+                        want = (contr_s if contr_s else p + " le") + " " + dreal
+                    if not txt.startswith("EXC:") and not txt.endswith(dreal):
                         continue        # the third word is realized differently in context (pronominal verb, …)
                     if txt.startswith("pour ") and shape.startswith('PP(P("pour")'):
                         txt = txt[5:]
-                    if txt != p + " le " + form and txt != p + " les " + form:
+                    if txt != p + " le " + dreal and txt != p + " les " + dreal:
                         nontriv += 1
                     if txt != want:
+                        flat = "AP(" not in shape
                         if txt.startswith("EXC:"):
                             sig = "fr:crash:%s:sweep" % txt[4:]
                         elif re.match(r"(à|de) les? ", txt):
                             sig = "fr:F3p:plain"
-                        elif " le " + form in txt:
+                        elif " le " + dreal in txt:
                             sig = "fr:F1:plain"
                         elif "l'" in txt and not V:
                             sig = "fr:F2:plain"
+                        elif V and decor and flat and contr_s and txt == contr_s + " " + dreal:
+                            # the look-ahead reads the RAW realization of the third token: a tag / punctuation hides the vowel
+                            sig = "fr:lookahead:tagged-third-word-contracted"
                         else:
                             sig = "fr:lookahead:contracted-instead-of-elided" if V else "fr:F3p:other"
                         fails.append((sig, {"kind": "pair", "lang": "fr", "src": e}, "expected %r, realized %r" % (want, txt)))
@@ -875,7 +923,8 @@ def gen_sentence(rng, lang):
     """-> source text of one expression (constituent or dependency notation)"""
     def opt(s, p=0.25):
         if rng.random() < p:
-            s += rng.choice(['.a(",")', '.b("(")', '.tag("b")', '.tag("a",{"href":"x"})', '.en("\\"")', '.ba("[")', '.a("!")',
+            s += rng.choice(['.tag("i").tag("b")', '.tag("a",{"href":"x"}).tag("em")', '.b("(").tag("b")', '.tag("em").tag("a",{"href":"x"}).b("(")',
+                             '.a(",")', '.b("(")', '.tag("b")', '.tag("a",{"href":"x"})', '.en("\\"")', '.ba("[")', '.a("!")',
                              '.cap(True)', '.b("...")', '.en("(")', '.tag("i").a(".")'])
         return s
     if lang == "fr":
@@ -1123,10 +1172,10 @@ def replay_calls(ctx, calls, kind, dist):
         seen.add(key)
         lines.append(ml)
         keep.append(cl)
-    model = core.run_driver(lines, ctx.driver)
+    model = safe_driver(ctx, lines)
     # the hypotheses of the _partial theorems (TokWF, BwdOK, Tame, EuphLower) evaluated by the model on the INPUT of
     # each real call, and `settled` on the real OUTPUT: inside the hypotheses the theorem predicts "settled"
-    hyps = core.run_driver([dict(ml, op="hyps") for ml in lines], ctx.driver)
+    hyps = safe_driver(ctx, [dict(ml, op="hyps") for ml in lines])
     outs = []
     for ml, cl in zip(lines, keep):
         if "r" in cl["out"] and all(isinstance(r, str) for r in cl["out"]["r"]):
@@ -1134,10 +1183,11 @@ def replay_calls(ctx, calls, kind, dist):
                          "toks": [dict(t, r=r) for t, r in zip(ml["toks"], cl["out"]["r"])]})
         else:
             outs.append({"op": "settled", "lang": ml["lang"], "toks": []})
-    sett = core.run_driver(outs, ctx.driver)
+    sett = safe_driver(ctx, outs)
     for ml, m, cl, hy, st in zip(lines, model, keep, hyps, sett):
-        if "driver_error" in m:
-            raise core.Infra("driver error: %s on %s" % (m["driver_error"], core.canon(ml)[:300]))
+        if m is None or hy is None or st is None or "driver_error" in m:
+            oracle_call(ctx, kind, cl["lang"], cl["toks"], cl["out"], {"kind": "toks", "line": ml, "sentence": cl.get("src")})
+            continue
         ctx.cov["traces_validated_against_impl"] += 1
         ch = changed(cl["toks"], cl["out"])
         ctx.count(ml, cl["out"], trivial=not ch)
@@ -1186,10 +1236,11 @@ def run(ctx, deep=False):
         answers.append(a)
         factss.append(f)
     sel = [i for i, ml in enumerate(mlines) if in_alphabet(ml["toks"]) and not any(t["hw"] == "x" or t["hr"] == "x" for t in ml["toks"])]
-    model = core.run_driver([mlines[i] for i in sel], ctx.driver)
+    model = safe_driver(ctx, [mlines[i] for i in sel])
     for i, m in zip(sel, model):
-        if "driver_error" in m:
-            raise core.Infra("driver error: %s on %s" % (m["driver_error"], core.canon(mlines[i])[:300]))
+        if m is None or "driver_error" in m:
+            oracle_call(ctx, "elide", lines[i]["lang"], factss[i], answers[i], {"kind": "toks", "line": lines[i]})
+            continue
         ctx.cov["traces_validated_against_impl"] += 1
         ch = changed(factss[i], answers[i])
         ctx.count(lines[i], answers[i], trivial=not ch)
@@ -1210,7 +1261,9 @@ def run(ctx, deep=False):
             ok, _ = settled_py(lang, toks)
             ok2, _ = settled_py(lang, [t for t in toks if t["r"] != ""])
             sexp.append({"ok": ok, "text_ok": ok2})
-    for l, m, e in zip(slines, core.run_driver(slines, ctx.driver), sexp):
+    for l, m, e in zip(slines, safe_driver(ctx, slines), sexp):
+        if m is None:
+            continue
         ctx.cov["traces_validated_against_impl"] += 1
         if core.canon(m) != core.canon(e):
             ctx.diff(l, m, {"python_statement_of_the_property": e})
@@ -1228,14 +1281,14 @@ def run(ctx, deep=False):
         strs.add("".join(rng.choice(pool) for _ in range(rng.randint(0, 9))))
     strs = sorted(s for s in strs if in_alphabet([{"r": s}]))
     sl = [{"op": "sep", "lang": lang, "s": s} for s in strs for lang in ("fr", "en")]
-    for l, m in zip(sl, core.run_driver(sl, ctx.driver)):
+    for l, m in zip(sl, safe_driver(ctx, sl)):
         rx = ConstituentFr.sepWordREC if l["lang"] == "fr" else ConstituentEn.sepWordREC
         g = rx.match(l["s"])
         a = {"g": [g.group(1), g.group(2), g.group(3)]}
         g2 = cap.SEP.match(l["s"])
         ctx.cov["traces_validated_against_impl"] += 1
         ctx.count(l, a, trivial=(g.group(1) == "" and g.group(3) == ""))
-        if core.canon(m) != core.canon(a):
+        if m is not None and core.canon(m) != core.canon(a):
             ctx.diff(l, m, a)
         if [g2.group(1), g2.group(2), g2.group(3)] != a["g"]:
             ctx.diff(l, {"harness_SEP": [g2.group(1), g2.group(2), g2.group(3)]}, a)
@@ -1302,9 +1355,10 @@ def run(ctx, deep=False):
     se = max(1, total_pairs // (120000 if thorough else 20000))
     mp = multiprocessing.get_context("fork")
     with mp.Pool(min(16, os.cpu_count() or 4), initializer=worker_init) as pool:
-        r_fr = pool.map_async(sweep_fr_chunk, [(ch, firsts, se) for ch in chunks(sweep_forms, 400)])
-        r_en = pool.map_async(sweep_en_chunk, [(ch, 7 if thorough else 3) for ch in chunks(en_items, 800)])
-        r_ct = pool.map_async(sweep_contr_chunk, [(ch, 11 if thorough else 3) for ch in chunks(contr_forms, 100)])
+        de = 25 if thorough else 4
+        r_fr = pool.map_async(sweep_fr_chunk, [(ch, firsts, se, de) for ch in chunks(sweep_forms, 400)])
+        r_en = pool.map_async(sweep_en_chunk, [(ch, 7 if thorough else 3, de) for ch in chunks(en_items, 800)])
+        r_ct = pool.map_async(sweep_contr_chunk, [(ch, 11 if thorough else 3, de) for ch in chunks(contr_forms, 100)])
         r_se = pool.map_async(realize_chunk, chunks(sent, 60))
         res_fr, res_en, res_ct, res_se = r_fr.get(), r_en.get(), r_ct.get(), r_se.get()
     cap_calls = []
@@ -1350,7 +1404,9 @@ def run(ctx, deep=False):
                 ok, _ = settled_py(tx["lang"], toks)
                 ok2, _ = settled_py(tx["lang"], [t for t in toks if t["r"] != ""])
                 text_meta.append({"ok": ok, "text_ok": ok2})
-    for l, m, e in zip(text_lines, core.run_driver(text_lines, ctx.driver), text_meta):
+    for l, m, e in zip(text_lines, safe_driver(ctx, text_lines), text_meta):
+        if m is None:
+            continue
         ctx.cov["traces_validated_against_impl"] += 1
         if core.canon(m) != core.canon(e):
             ctx.diff(l, m, {"python_statement_of_the_property": e})
